@@ -76,7 +76,7 @@ impl Prop for C10 {
     fn runs(tier: Tier) -> u64 {
         match tier {
             Tier::Quick => 200_000,
-            Tier::Thorough => 10_000_000,
+            Tier::Thorough => 50_000_000,
         }
     }
     fn gen(r: &mut SplitMix, _t: Tier, _i: u64) -> Scn {
